@@ -1,7 +1,10 @@
 //! Shared pieces of the correspondence harness: hex protocol helpers, the scripted
 //! interface (mirrors coq/theories/Script.v), the service-spec parser.
 use std::io::BufRead;
-use std::sync::Mutex;
+use std::os::unix::net::UnixStream;
+use std::sync::atomic::{AtomicBool, AtomicUsize, Ordering};
+use std::sync::{Arc, Mutex};
+use std::time::{Duration, Instant};
 
 use serde_json::{json, Value};
 use varlink::{Call, CallTrait, Reply};
@@ -217,3 +220,64 @@ pub fn split_bar<'a>(toks: &[&'a str]) -> (Vec<&'a str>, Vec<&'a str>) {
         None => (toks.to_vec(), Vec::new()),
     }
 }
+
+pub static SOCK_N: AtomicUsize = AtomicUsize::new(0);
+
+pub struct Server {
+    pub addr: String,
+    pub stop: Arc<AtomicBool>,
+    th: Option<std::thread::JoinHandle<()>>,
+}
+
+impl Server {
+    pub fn start(spec: &SvcSpec, max_workers: usize) -> Server {
+        let n = SOCK_N.fetch_add(1, Ordering::SeqCst);
+        let addr = format!("unix:@vharness-{}-{}", std::process::id(), n);
+        let stop = Arc::new(AtomicBool::new(false));
+        let svc = spec.build(false);
+        let a2 = addr.clone();
+        let s2 = stop.clone();
+        let th = std::thread::spawn(move || {
+            let _ = varlink::listen(
+                svc,
+                &a2,
+                &varlink::ListenConfig {
+                    initial_worker_threads: 1,
+                    max_worker_threads: max_workers,
+                    idle_timeout: 0,
+                    stop_listening: Some(s2),
+                },
+            );
+        });
+        // wait until the socket accepts
+        let deadline = Instant::now() + Duration::from_secs(5);
+        loop {
+            if let Ok(_c) = connect_abstract(&addr) {
+                break;
+            }
+            if Instant::now() > deadline {
+                panic!("server did not start");
+            }
+            std::thread::sleep(Duration::from_millis(5));
+        }
+        Server { addr, stop, th: Some(th) }
+    }
+}
+
+impl Drop for Server {
+    fn drop(&mut self) {
+        self.stop.store(true, Ordering::SeqCst);
+        if let Some(t) = self.th.take() {
+            let _ = t.join();
+        }
+    }
+}
+
+pub fn connect_abstract(addr: &str) -> std::io::Result<UnixStream> {
+    use std::os::linux::net::SocketAddrExt;
+    use std::os::unix::net::SocketAddr;
+    let name = addr.strip_prefix("unix:@").unwrap();
+    let sa = SocketAddr::from_abstract_name(name)?;
+    UnixStream::connect_addr(&sa)
+}
+
